@@ -23,13 +23,19 @@ def run(ctx, proof):
         return {"errors": [err], "evaluations": 0}
     descr, sdescr = data["descr"], data["ser_descr"]
     corr = [{"name": "ser_program", "cases": 0, "skipped": "proof cone did not build"}, {"name": "parse", "cases": 0, "skipped": "proof cone did not build"}]
-    cfail = []
+    cfail, extra = [], {}
     if proof["ok"]:
         c1, f1 = common.check_case_files(ctx, data["ser_files"], "ser_program (Model/Serial.v) vs Program.to_string",
                                          describe=lambda i, a: sdescr[i] if i < len(sdescr) else i)
         c2, f2 = common.check_case_files(ctx, data["files"], "parse (Model/Lexer.v + Model/Parser.v) vs Parser.parse on the serialised text",
                                          describe=lambda i, a: descr[i] if i < len(descr) else i)
         corr, cfail = [c1, c2], f1 + f2
+        # not a comparison: how many of the generated programs meet the hypotheses of C15_serialise_parse (names are identifiers, float texts of FLOAT shape)
+        c3, f3 = common.check_case_files(ctx, data["wf_files"], "hypotheses of C15_serialise_parse", describe=lambda i, a: i)
+        broken = [f for f in f3 if "did not evaluate" in f["what"]]
+        cfail += broken
+        extra = {"programs_meeting_the_hypotheses_of_C15_serialise_parse": c3["cases"] - (len(f3) - len(broken)), "of": c3["cases"],
+                 "examples_outside_the_hypotheses": [sdescr[f["case"]]["serialised"][:200] for f in f3 if isinstance(f.get("case"), int)][:3]}
     return {"corr": corr, "corr_failures": cfail, "oracle_failures": data["oracle_failures"],
             "evaluations": data["evaluations"], "distinct_nontrivial": data["distinct_nontrivial"],
-            "rule": RULE, "samples": data["samples"], "distribution": data["distribution"]}
+            "rule": RULE, "samples": data["samples"], "distribution": data["distribution"], "extra": extra}
